@@ -14,7 +14,7 @@ def check(pid, level, technique, text, note, ref):
 EXH = "bounded-exhaustive enumeration on the real engine"
 
 check("C15", "exploration",
-      "bounded-exhaustive enumeration: all ordered triples of a 95-value (thorough 140) alphabet and of 37 key encodings executed on the real Value/Key impls and through templates, against an independent exact reference",
+      "bounded-exhaustive enumeration: all ordered triples of a 149-value alphabet and of 37 key encodings executed on the real Value/Key impls and through templates, against an independent exact reference",
       "Every triple of the value alphabet (every kind, every integer encoding, f64/128-bit boundaries, nested and incomparable containers) is checked for the equivalence and total-order laws and against an independent structural/exact-rational reference for ==; every pair is rendered through ==, !=, <, <=, >, >=, sort, unique; every key encoding is inserted into maps of 0..=8 entries and probed with every other encoding through five lookup forms. Exhaustive within the alphabets: a law violation needs at most three values, and the alphabets contain every representation class the implementation distinguishes.",
       "Alphabet, not all values: integers/floats other than the listed boundaries, strings beyond the listed ones and nesting deeper than 64 are not explored. The reference comparison (mccore::numref, ref_eq) is trusted.",
       "DESIGN.md §4 C15")
@@ -47,7 +47,7 @@ def main():
             "replay_cmd_template": f"./check {pid} --replay {{path}}",
             "engine": "mc-kernel",
             "level_claimed": {"category": c["level"], "text": c["text"], "design_ref": c["ref"]},
-            "level_note": c["note"],
+            "level_note": c["note"] + ("" if pid == "C18" else " The thorough command also repeats the quick bounds on the subject built with its `fast` cargo feature set (itoa number printing, pulldown escaper, ahash), which the repository's suite never compiles; that pass's verdict counts like the main one's (DESIGN.md §3.4a, evidence/variants/fast/)."),
             "technique": c["technique"],
         })
     na = [{"property_id": pid,
@@ -69,7 +69,7 @@ def main():
              "kind_free_text": "bounded-exhaustive explorer: every check is a list of finite indexable families; every work item runs the real engine inside supervised worker processes (crash/hang isolation), oracle evaluated on every case, evidence/replay/known-finding handling shared"},
         ],
         "checks": checks,
-        "notes": "Exit codes of every check: 0 held (KNOWN-FINDING lines possible), 1 VIOLATION, 2 machinery failure. Known findings: /verif/known_findings.json. Seeded changes used to validate detection: /verif/seeded/.",
+        "notes": "Exit codes of every check: 0 held (KNOWN-FINDING lines possible), 1 VIOLATION, 2 machinery failure. Lines prefixed [features=fast] come from the thorough tier's pass on the subject built with --features fast. Known findings: /verif/known_findings.json. Seeded changes used to validate detection: /verif/seeded/.",
         "not_applicable": na,
     }
     with open(os.path.join(ROOT, "MANIFEST.json"), "w") as f:
